@@ -142,6 +142,9 @@ def run(chk, tier):
     for sub in (["r#type", "r#Type", "TYPE"], ["r#fn", "Fn", "FN", "Foo"], ["r#type", "Type"]):
         cases.append(enum_case("e%d" % len(cases), list(sub), maxlen))
     cases.append(enum_case("e%d" % len(cases), ["A", "Foo"], maxlen, enum_name="r#Type"))
+    # the error names the enum: names that start like the raw prefix, lower-case and non-ASCII names
+    for en in ("r#ref", "rrule", "r", "Rr", "r_", "Ärger", "x"):
+        cases.append(enum_case("e%d" % len(cases), ["A", "Foo"], 2, enum_name=en))
     # non-ASCII identifiers: "ignoring case" is not an ASCII-only notion
     for sub in (["Ärger", "Foo"], ["über", "ÜBER", "Bar"], ["Élan", "élan", "ÉLAN"], ["Ωmega"], ["Ärger", "über", "Élan", "Foo", "foo"]):
         cases.append(enum_case("e%d" % len(cases), list(sub), 2 if len(sub) > 3 else 3))
